@@ -613,10 +613,12 @@ func AuthResponseFormPost(res http.ResponseWriter, redirectURI string, response 
 	}
 
 	params := &struct {
-		RedirectURI string
+		RedirectURI template.URL
 		Params      any
 	}{
-		RedirectURI: redirectURI,
+		// the redirect URI has been validated against the client's registration; without the URL type
+		// html/template replaces every non-http(s) scheme (native clients' custom schemes) by "#ZgotmplZ"
+		RedirectURI: template.URL(redirectURI),
 		Params:      values,
 	}
 
